@@ -718,6 +718,8 @@ void http_response_backend_done (request_st * const r) {
 		__attribute_fallthrough__
 	case CON_STATE_WRITE:
 		if (!r->resp_body_finished) {
+			if (r->resp_body_scratchpad > 0)
+				r->keep_alive = 0; /*(less than Content-Length received)*/
 			if (r->http_version == HTTP_VERSION_1_1)
 				http_chunk_close(r);
 		  #if 0
